@@ -900,7 +900,7 @@ func minInt(a, b int) int {
 func genNonTrivial(prop string, gc *genCase, s *rt.Spec, f *FileSpec) bool {
 	switch prop {
 	case "C13":
-		nonDefault := f.CtxAlias != "" || f.CffAlias != "" || f.TimeImp != "" || s.Wrap
+		nonDefault := f.CtxAlias != "" || f.CffAlias != "" || f.TimeImp != "" || f.OddImp != 0 || s.Wrap
 		for _, t := range s.Tasks {
 			if t.Sp != "lit" {
 				nonDefault = true
@@ -1035,6 +1035,9 @@ func TestGen(t *testing.T) {
 					}
 					if f.TimeImp != "" {
 						lbl = append(lbl, "time:"+f.TimeImp)
+					}
+					if f.OddImp != 0 {
+						lbl = append(lbl, fmt.Sprintf("import:name-differs-from-path-%d", f.OddImp))
 					}
 					ll := binLogLine{H: specHash(s) + gc.mode, NT: genNonTrivial(prop, gc, s, f), N: 1, Labels: lbl, Other: others}
 					others = nil
